@@ -159,6 +159,15 @@ def check_ports(rep, d):
         if k.kind in ('cod', 'input') and outs != 1:
             rep.fail('C20:special.dangling', 'wire from %r ends nowhere (%d outgoing edges)' % (k, outs), r)
             return
+    # exactly one input node per wire of the domain and one output node per wire of the codomain, carrying that wire's object
+    ins_ = sorted((k for k in graph.nodes if k.kind == 'input'), key=lambda k: k.i)
+    outs_ = sorted((k for k in graph.nodes if k.kind == 'output'), key=lambda k: k.i)
+    if [k.i for k in ins_] != list(range(len(d.dom))) or [k.i for k in outs_] != list(range(len(d.cod))):
+        rep.fail('C20:special.boundary', '%d input / %d output nodes for a diagram %d -> %d' % (len(ins_), len(outs_), len(d.dom), len(d.cod)), r)
+        return
+    if [getattr(k, 'obj', None) for k in ins_] != list(d.dom) or [getattr(k, 'obj', None) for k in outs_] != list(d.cod):
+        rep.fail('C20:special.boundary', 'the input / output nodes do not carry the objects of dom / cod', r)
+        return
     for a, b in graph.edges:
         if not pos[a][1] > pos[b][1] - EPS:
             rep.fail('C20:special.downwards', 'edge %r -> %r points upwards' % (a, b), r)
